@@ -9,6 +9,9 @@ import OpfVerif.Model.Forest
 import OpfVerif.Model.Expr
 import OpfVerif.Model.Knn
 import OpfVerif.Model.Lawful
+import OpfVerif.Model.Measures
+import OpfVerif.Model.Stream
+import OpfVerif.Model.Learn
 import OpfVerif.Gen.Distance
 import OpfVerif.Gen.Decorator
 open Opf
@@ -298,6 +301,82 @@ def runPredict : RM String := do
   let ls := " ".intercalate (labs.map fun o => match o with | none => "-1" | some x => toString x)
   return s!"{ls} | {showBools f2.relevant}"
 
+/-- `acc n labels[n] preds[n]` : confusion matrix | opf_accuracy bits | per-label bits | purity bits -/
+def runAcc : RM String := do
+  let n ← nextN
+  let labels := (← nextNs n).toList
+  let preds := (← nextNs n).toList
+  let cast : Nat → Float := fun k => k.toFloat
+  let cm := confusion labels preds
+  let a := opfAccuracyG cast 0.0 1.0 labels preds
+  let pl := perLabelG cast 1.0 labels preds
+  let pu := purityG cast 0.0 labels preds
+  return s!"{" , ".intercalate (cm.map fun r => " ".intercalate (r.map toString))} | {fbits a} | {" ".intercalate (pl.map fbits)} | {fbits pu}"
+
+/-- `acc1 n labels[n] preds[n]` : opf_accuracy only (predictions may exceed the label range) -/
+def runAcc1 : RM String := do
+  let n ← nextN
+  let labels := (← nextNs n).toList
+  let preds := (← nextNs n).toList
+  return fbits (opfAccuracyG (fun k => k.toFloat) 0.0 1.0 labels preds)
+
+/-- `norm n bits[n]` : one column -/
+def runNorm : RM String := do
+  let n ← nextN
+  let mut col : Array Float := #[]
+  for _ in [0:n] do col := col.push (← rdF)
+  let o := normalizeColG (fun k => k.toFloat) (0.0 : Float) Float.sqrt col.toList
+  return " ".intercalate (o.map fbits)
+
+/-- `split n halt perm[n] labels[n]` : I1 | Y1 | I2 | Y2 (rows are identified by their index) -/
+def runSplit : RM String := do
+  let n ← nextN
+  let halt ← nextN
+  let perm := (← nextNs n).toList
+  let ys := (← nextNs n).toList
+  let r := splitRun (List.range n) ys perm halt
+  let sh (l : List Nat) := " ".intercalate (l.map toString)
+  let m := mergeRun r.1.1 r.2.1 r.1.2.1 r.2.2.1
+  return s!"{sh r.1.2.2} | {sh r.1.1} | {sh r.1.2.1} | {sh r.2.2.2} | {sh r.2.1} | {sh r.2.2.1} | {sh m.1} | {sh m.2}"
+
+def runParse : RM String := do
+  let n ← nextN
+  let labels := (← nextIs n).toList
+  return if parseAccept labels then "1" else "0"
+
+def runDecode : RM String := do
+  let n ← nextN
+  let bytes := ((← nextNs n).toList).map (fun b => b.toUInt8)
+  match decodeOpf bytes with
+  | none => return "none"
+  | some ss => return " , ".intercalate (ss.map fun s => s!"{s.id} {s.label} {" ".intercalate (s.feats.map fun f => toString f.toNat)}")
+
+/-- `swap nt nv nonProto proto[nt] ne errors[ne] nd draws[nd]` -/
+def runSwap : RM String := do
+  let nt ← nextN
+  let nv ← nextN
+  let np ← nextN
+  let proto ← nextNs nt
+  let ne ← nextN
+  let errs := (← nextNs ne).toList
+  let ndr ← nextN
+  let draws := (← nextNs ndr).toList
+  let s0 : SwapSt Nat := { train := List.range nt, val := (List.range nv).map (· + nt), nonProto := np, draws := draws }
+  let s := swapLoop (fun j => proto.getD j 0 == 1) errs s0
+  let sh (l : List Nat) := " ".intercalate (l.map toString)
+  return s!"{sh s.train} | {sh s.val}"
+
+def runBest : RM String := do
+  let start ← nextI
+  let n ← nextN
+  let accs := (← nextIs n).toList
+  return match bestIter start accs with | none => "-1" | some k => toString k
+
+def runPrune : RM String := do
+  let n ← nextN
+  let rel ← nextNs n
+  return " ".intercalate ((pruneFilter (fun i => rel.getD i 0 == 1) (List.range n)).map toString)
+
 def dispatch (line : String) : String :=
   match (line.splitOn " ").filter (· ≠ "") with
   | [] => "bad-op"
@@ -309,6 +388,15 @@ def dispatch (line : String) : String :=
     | "prim" => run runPrim
     | "fit" => run runFit
     | "predict" => run runPredict
+    | "acc" => run runAcc
+    | "acc1" => run runAcc1
+    | "norm" => run runNorm
+    | "split" => run runSplit
+    | "parse" => run runParse
+    | "decode" => run runDecode
+    | "swap" => run runSwap
+    | "best" => run runBest
+    | "prune" => run runPrune
     | "dist" => run runDist
     | "arcs" => run runArcs
     | "pdf" => run runPdf
